@@ -83,8 +83,18 @@ class RecordStreamWriter:
         if not self.header_written:
             self.writeheader()
         blob = self.packer.pack(obj)
-        self.fp.write(struct.pack(">I", len(blob)))
-        self.fp.write(blob)
+        self._write_all(struct.pack(">I", len(blob)))
+        self._write_all(blob)
+
+    def _write_all(self, data):
+        """Write all of ``data``. A raw (unbuffered) file object may take only a part of it per call and returns how
+        much, the rest has to be offered again or the frames that follow are shifted."""
+        written = self.fp.write(data)
+        while written is not None and written < len(data):
+            if written <= 0:
+                raise IOError("write() made no progress")
+            data = data[written:]
+            written = self.fp.write(data)
 
     def writeheader(self):
         self.header_written = True
